@@ -187,10 +187,17 @@ class World:
         sys.stdout = _NULL_OUT
         signal.signal(signal.SIGALRM, _on_alarm)
         signal.setitimer(signal.ITIMER_REAL, CALL_GUARD_S)
+        self._gchange = None
         try:
             with np.errstate(all='ignore'), warnings.catch_warnings():
                 warnings.simplefilter('ignore')
-                r = fn(*args, **kwargs)
+                g0 = _process_globals()
+                try:
+                    r = fn(*args, **kwargs)
+                finally:
+                    g1 = _process_globals()
+                    if g1 != g0:
+                        self._gchange = {k: [repr(g0[k]), repr(g1[k])] for k in g0 if g0[k] != g1[k]}
                 if hasattr(r, '__next__'):
                     out = []
                     for x in r:
@@ -374,6 +381,9 @@ class World:
         if outcome == 'raise':
             self.probe('p_exception_path')
         self._frame_check(temps, temp_snaps, exempt, key, argvals, tag, exempt_arrays)
+        if self._gchange:
+            self.fail('frame', call=key, outcome=tag, changed='process-global settings',
+                      role='hidden state', settings=self._gchange)
 
         out = {'r': tag}
         rsnap = None
@@ -470,6 +480,9 @@ class World:
         outcome, res = self._invoke(fn, inp['args'], inp['kwargs'])
         tag = 'ok' if outcome == 'ok' else 'raise:' + type(res).__name__
         self._frame_check(temps, temp_snaps, set(), rec['key'] + ' (re-issued)', allin, tag)
+        if self._gchange:
+            self.fail('frame', call=rec['key'] + ' (re-issued)', outcome=tag,
+                      changed='process-global settings', role='hidden state', settings=self._gchange)
         if tag != ent['tag']:
             self.fail(oracle, call=rec['key'], first=ent['tag'], second=tag,
                       first_step=ent['step'], on_copies=bool(use_copy and inp is not ent['inputs']))
@@ -528,6 +541,15 @@ class World:
                     self.probe('f_redeliver_after_caller_wrote_into_result')
         self.probe('f_reorder_calls', n)
         return {'r': 'ok', 'n': n}
+
+
+def _process_globals():
+    """Process-wide settings a call has no business changing: a changed print precision or
+    error mode makes later, unrelated calls return different results."""
+    return {'numpy.printoptions': sorted((k, repr(v)) for k, v in np.get_printoptions().items()),
+            'numpy.errstate': sorted(np.geterr().items()),
+            'sys.stdout': id(sys.stdout) == id(_NULL_OUT),
+            'recursionlimit': sys.getrecursionlimit()}
 
 
 def _malformed(v):
